@@ -160,3 +160,32 @@ Proof.
 Qed.
 Corollary gid_stem_injective g1 g2 : gid_stem g1 = gid_stem g2 -> g1 = g2.
 Proof. intros E. pose proof (gid_stem_roundtrip g1) as H1. rewrite E, gid_stem_roundtrip in H1. congruence. Qed.
+
+(* ---------- _copy_colr ---------- *)
+Section CopyColr.
+Variable G : Type.
+(* T2: every glyph of the target keeps its glyph id, every layer glyph gets one, and the new order
+   names each glyph once -- provided the donor's layer glyph names are not names of the target
+   (otherwise the target's outline of that name is overwritten: the code only asserts equal metrics) *)
+Theorem copy_colr_order_spec (target layers : list G) :
+  NoDup target -> NoDup layers -> (forall g, In g layers -> ~ In g target) ->
+  NoDup (copy_colr_order target layers) /\
+  (forall i g, nth_error target i = Some g -> nth_error (copy_colr_order target layers) i = Some g) /\
+  (forall g, In g layers -> In g (copy_colr_order target layers)).
+Proof.
+  intros Ht Hl Hfresh. unfold copy_colr_order. pose proof I as Hl0. split; [|split].
+  - clear Hl0. induction target as [|x r IH]; [exact Hl|]. inversion Ht as [|? ? Hx Hr]; subst. simpl. constructor.
+    + intros Hin. apply in_app_or in Hin. destruct Hin as [Hin|Hin]; [contradiction|]. apply (Hfresh x Hin). left; reflexivity.
+    + apply IH; [exact Hr|]. intros g Hg Hin. apply (Hfresh g Hg). right; exact Hin.
+  - intros i g H. rewrite nth_error_app1; [exact H|]. apply nth_error_Some. congruence.
+  - intros g H. apply in_or_app. right. exact H.
+Qed.
+(* the hypothesis matters: a shared name appears twice *)
+Lemma copy_colr_order_clash (target layers : list G) g :
+  In g target -> In g layers -> ~ NoDup (copy_colr_order target layers).
+Proof.
+  intros Ht Hl Hn. unfold copy_colr_order in Hn. 
+  apply in_split in Ht. destruct Ht as (a & b & ->). rewrite <- app_assoc in Hn. apply NoDup_remove_2 in Hn.
+  apply Hn. apply in_or_app. right. apply in_or_app. right. exact Hl.
+Qed.
+End CopyColr.
